@@ -7,7 +7,7 @@
    an overlap error at a node that is in no conflicting pair). *)
 From Coq Require Import List NArith ZArith Bool String.
 From GQL Require Export Exec.Syntax Validate.VSyntax.
-From GQL Require Import Base.Bytes Validate.Overlap Validate.Rules.
+From GQL Require Import Base.Bytes Validate.Overlap Validate.Rules Validate.All.
 Import ListNotations.
 Open Scope N_scope.
 
@@ -16,34 +16,7 @@ Inductive c02case :=
 
 Definition fuel : nat := 200.
 
-Definition run_rule (r : N) (S : schema) (W : wdoc) : list N :=
-  match r with
-  | 0 => rule_arguments_of_correct_type S W
-  | 1 => rule_default_values_of_correct_type S W
-  | 2 => rule_fields_on_correct_type S W
-  | 3 => rule_fragments_on_composite S W
-  | 4 => rule_known_argument_names S W
-  | 5 => rule_known_directives S W
-  | 6 => rule_known_fragment_names S W
-  | 7 => rule_known_type_names S W
-  | 8 => rule_lone_anonymous W
-  | 9 => rule_no_fragment_cycles W
-  | 10 => rule_no_undefined_variables S W
-  | 11 => rule_no_unused_fragments W
-  | 12 => rule_no_unused_variables S W
-  | 13 => run_overlap S (erase W) true fuel
-  | 14 => rule_possible_fragment_spreads S W
-  | 15 => rule_provided_non_null_arguments S W
-  | 16 => rule_scalar_leafs S W
-  | 17 => rule_unique_argument_names S W
-  | 18 => rule_unique_fragment_names W
-  | 19 => rule_unique_input_field_names S W
-  | 20 => rule_unique_operation_names W
-  | 21 => rule_unique_variable_names W
-  | 22 => rule_variables_are_input_types S W
-  | 23 => rule_variables_in_allowed_position S W
-  | _ => []
-  end.
+Definition run_rule (r : N) (S : schema) (W : wdoc) : list N := run_rule_f fuel r S W.
 
 Fixpoint nin (x : N) (l : list N) : bool :=
   match l with [] => false | y :: r => (x =? y) || nin x r end.
@@ -56,7 +29,7 @@ Definition nonempty {A} (l : list A) : bool := match l with [] => false | _ => t
    rules the model's verdict (tied to the declarative predicates by the C02_rule_iff theorems). *)
 Definition spec_violates (r : N) (S : schema) (W : wdoc) : bool :=
   match r with
-  | 13 => negb (L1b S (erase W) fuel)
+  | 13 => match L1o S (erase W) fuel with Some true => false | _ => true end
   | 9 => negb (acyclic_b (erase W))
   | _ => nonempty (run_rule r S W)
   end.
@@ -84,7 +57,12 @@ Definition args_unique_b (D : document) : bool :=
 Definition check_rule (S : schema) (W : wdoc) (acyc : bool) (r : N) (impl : list N) : N :=
   (* nested ifs, not &&: vm_compute evaluates both arguments of andb *)
   if r =? 13 then
+    (* the model must never run out of fuel (OutOfFuel is not a verdict) *)
+    if negb (run_complete S (erase W) true fuel) then 1 else
     if acyc then
+      (* the Spec oracle is L1o (C02_L1_oracle_reflects: a verdict of L1o is the truth value of
+         L1_accepts); None = out of fuel is a defect of the check, not a verdict *)
+      if match L1o S (erase W) fuel with None => true | _ => false end then 1 else
       if negb (Bool.eqb (nonempty impl) (spec_violates r S W)) then 2
       else if negb (subset impl (L1_offending S (erase W) fuel)) then 2
       else if same_set impl (run_rule r S W) then 0 else 1
@@ -93,11 +71,9 @@ Definition check_rule (S : schema) (W : wdoc) (acyc : bool) (r : N) (impl : list
          rule's specification (NoFragmentCycles / UniqueArgumentNames reject them); the
          memoised model still has to agree with the implementation *)
       (if same_set impl (run_rule r S W) then 0 else 1)
+  else if (r =? 11) && negb (closures_stable W) then 1   (* the model's closure fell short: not a verdict *)
   else if negb (Bool.eqb (nonempty impl) (spec_violates r S W)) then 2
   else if same_set impl (run_rule r S W) then 0 else 1.
-
-Definition all_rules : list N :=
-  [0;1;2;3;4;5;6;7;8;9;10;11;12;13;14;15;16;17;18;19;20;21;22;23].
 
 Fixpoint worst (l : list N) : N :=
   match l with [] => 0 | x :: r => N.max x (worst r) end.
